@@ -34,7 +34,9 @@ prop("C16", "Label ordering is a total order equal to CBOR's deterministic key o
      mirsym={"jobs": _jl("c16"), "budget_s": {"quick": 900, "thorough": 5400}, "need_both": False},
      bounds={
          "quick": "integer labels: all 2^64 values per operand (pairs and triples); text labels: "
-                  "all ASCII strings of length <= 3 (pairs) / <= 2 (mixed triples, registry labels); "
+                  "all ASCII strings of length <= 3 (pairs) / <= 2 (mixed triples, registry labels), strings of <= 2 "
+                  "characters over a 1/2/3/4-byte character palette; mirsym: cmp and cmp_canonical over every pair of "
+                  "labels with any i64 / any UTF-8 text of <= 2 bytes; "
                   "registry variants: every enum value reachable through from_i64(any i64), private "
                   "values any i64 < -65536",
          "thorough": "as quick, plus text length <= 4 and multi-byte UTF-8 contents",
@@ -90,11 +92,11 @@ prop("C08", "Header maps: accepted iff well-formed, and every field means what t
      mirsym={"jobs": _jl("c08"), "budget_s": {"quick": 900, "thorough": 5400}},
      bounds={
          "quick": "header maps with <= 2 entries (every kind of key and value, all integer labels and values, "
-                  "text <= 2 ASCII bytes, nested arrays <= 3 elements, 5 array elements in total) standalone; "
+                  "text <= 2 bytes (any UTF-8), nested arrays <= 3 elements, 5 array elements in total) standalone; "
                   "as unprotected header and inside the protected bstr of a COSE_Encrypt0 with 1 entry in total",
          "thorough": "<= 3 entries standalone (text <= 3), 2 entries in total inside the carrier",
      },
-     outside="maps with more entries; non-ASCII text in the content-type whitespace rule; the claim that the "
+     outside="maps with more entries; content-type text longer than 3 bytes is ASCII only; the claim that the "
              "outcome depends only on the data-model value rests on coset seeing only a ciborium Value (C13)",
      assumptions=[])
 
@@ -114,7 +116,7 @@ prop("C18", "CWT claims sets and KDF contexts decode and encode per their defini
 prop("C12", "No map handled by the crate ever carries the same label twice",
      mirsym={"jobs": _jl("c12"), "budget_s": {"quick": 900, "thorough": 5400}},
      bounds={"quick": "decode: header / claims maps with <= 2 entries and key maps with <= 3 (every pair of "
-                      "positions, every label: all integers, text <= 2 ASCII bytes), nested positions (body "
+                      "positions, every label: all integers, text <= 2 bytes), nested positions (body "
                       "protected + unprotected, signers, recipients, counter-signatures) with 2 entries in total; "
                       "encode: see the encode jobs' bounds",
              "thorough": "one more entry per map"},
@@ -158,7 +160,7 @@ prop("C06", "What is signed, MACed or encrypted is what is later verified or dec
 
 _RT_BOUNDS = {
     "quick": "every input accepted by the type's decoder within: arrays of the type's arity (+1), nested arrays "
-             "<= 3, maps <= 2 entries (2 in total per input), depth 4, text <= 1 ASCII byte, all integers, byte "
+             "<= 3, maps <= 2 entries (2 in total per input), depth 4, text <= 1 byte, all integers, byte "
              "strings of symbolic 64-bit length",
     "thorough": "maps <= 3 entries (3 in total), nested arrays <= 4, depth 5, text <= 2",
 }
@@ -196,7 +198,7 @@ prop("C14", "Tagged forms carry exactly the structure's registered CBOR tag",
 prop("C20", "Canonicalising a key sorts its encoding and changes nothing else",
      mirsym={"jobs": _jl("c20"), "budget_s": {"quick": 900, "thorough": 5400}, "need_both": False},
      bounds={"quick": "keys with every subset of {kid, alg, key_ops, base IV} and 2 extra parameters with arbitrary "
-                      "labels (any i64 outside 1..5, ASCII text <= 1 byte), both orderings",
+                      "labels (any i64 outside 1..5, UTF-8 text <= 2 bytes), both orderings",
              "thorough": "3 extra parameters"},
      outside="more parameters; text labels of 24 bytes or more",
      assumptions=["serialiser stub for a single integer / short text = RFC 8949 shortest-form bytes (needed by "
@@ -219,9 +221,14 @@ prop("C01", "Untrusted bytes never crash decoding or the processing that follows
 
 prop("C19", "Builders apply exactly the documented effect of each call, in any order",
      kani={"quick": ["c19_"], "thorough": ["c19x_"], "timeout": {"quick": 500, "thorough": 1800}, "jobs": 8},
-     bounds={"quick": "every sequence of 3 calls over each builder's public setters / adders / constructors "
-                      "(method chosen symbolically per step), byte vectors of length 0..2, labels: all i64, "
-                      "Value arguments from a leaf palette; reserved-label guards over every i64 label",
+     mirsym={"jobs": _jl("c19"), "budget_s": {"quick": 900, "thorough": 5400}, "need_both": False},
+     bounds={"quick": "Kani (compiled code): every sequence of 3 field-setter calls per builder (setter chosen "
+                      "symbolically per step), adders at fixed positions, the five key constructors, byte vectors "
+                      "of length 0..2, labels: all i64, Value arguments from a leaf palette, reserved-label guards "
+                      "over every i64 label; mirsym (MIR): every sequence of 3 calls over ALL public setters and "
+                      "adders of the 14 builders with the method chosen symbolically at every step, byte strings "
+                      "empty or of symbolic length, labels and integers: all i64 / u64, registry arguments: every "
+                      "registered value; private fields of COSE_KDF_Context compared directly",
              "thorough": "sequences of 4 calls"},
      outside="longer sequences; create_* helpers (C06)", assumptions=[])
 
